@@ -517,7 +517,7 @@ def aobj_member(f: Folder, obj: AObj, attr: str) -> Any:
     raise Unfoldable("%s has no member %s" % (obj._cls_.name, attr))
 
 
-TRIVIAL_DECORATORS = ("staticmethod", "classmethod", "property", "abstractmethod", "setter", "overload", "lru_cache", "cache", "wraps", "override", "final")
+TRIVIAL_DECORATORS = ("staticmethod", "classmethod", "property", "cached_property", "abstractmethod", "setter", "overload", "lru_cache", "cache", "wraps", "override", "final")
 
 
 def nontrivial_decorators(fn: Any) -> List[ast.expr]:
